@@ -79,6 +79,13 @@ func expected(name string, k *cuworld.Kernel, g cuworld.Geometry) []byte {
 			out(uint32(l) + 3)
 			le.PutUint32(m[cuworld.Tmp+4*gid:], uint32(l)+2)
 			le.PutUint32(m[cuworld.Out2+4*gid:], uint32(l)+3)
+		case "k13_gather_sparse_then_dense_line":
+			lane := l % 64
+			off := lane * 64
+			if lane >= 32 {
+				off = 0x780 + lane*4
+			}
+			out(in(off / 4))
 		case "k12_register_signature_survives_neighbour_exit":
 			if l >= 64 {
 				wf := uint32(l / 64)
@@ -305,7 +312,7 @@ func main() {
 		r = harness.Start("C14", "model_checking")
 	}
 	ks := cuworld.LoadKernels(harness.Dir())
-	names := []string{"k1_lds_barrier", "k2_global_barrier", "k3_two_barriers", "k4_waitcnt_vm", "k5_waitcnt_lgkm", "k6_early_exit_before_barrier", "k7_late_exit_without_barrier", "k8_store_then_endpgm", "k9_exit_with_pending_store_while_others_wait", "k10_many_scalar_loads", "k11_many_stores", "k12_register_signature_survives_neighbour_exit"}
+	names := []string{"k1_lds_barrier", "k2_global_barrier", "k3_two_barriers", "k4_waitcnt_vm", "k5_waitcnt_lgkm", "k6_early_exit_before_barrier", "k7_late_exit_without_barrier", "k8_store_then_endpgm", "k9_exit_with_pending_store_while_others_wait", "k10_many_scalar_loads", "k11_many_stores", "k12_register_signature_survives_neighbour_exit", "k13_gather_sparse_then_dense_line"}
 
 	// --- the emulation CU as a second implementation: values and executed-PC sequences
 	type geo = cuworld.Geometry
@@ -391,6 +398,22 @@ func main() {
 		}
 		o := cuworld.TimingOpts{Resident: sl.g.NumWG, Delays: []int{9, 60}, SlowScalar: sl.s, SlowVector: sl.v, SlowInst: sl.i, Horizon: 60000}
 		scs = append(scs, harness.Scenario{Name: fmt.Sprintf("%s/wg%dx%d/slow-memory(s%d,v%d,i%d)/resident%d", sl.k, sl.g.WGSize, sl.g.NumWG, sl.s, sl.v, sl.i, sl.g.NumWG), Bound: b, Body: body(ks[sl.k], sl.g, o)})
+	}
+	// the mi300a platform's compute-unit parameters (timing parameters may change time only): every kernel once,
+	// the memory-ordering kernels also under the explorer
+	for _, n := range names {
+		for _, g := range []geo{{128, 1}, {128, 2}} {
+			b := 0
+			if strings.HasPrefix(n, "k4_") || strings.HasPrefix(n, "k13_") || strings.HasPrefix(n, "k8_") || strings.HasPrefix(n, "k9_") || r.Thorough() {
+				b = 1
+			}
+			o := cuworld.TimingOpts{Scoreboard: true, Resident: g.NumWG, Delays: []int{9, 60}, MI300AKnobs: true}
+			scs = append(scs, harness.Scenario{Name: fmt.Sprintf("%s/wg%dx%d/mi300a-knobs/resident%d", n, g.WGSize, g.NumWG, g.NumWG), Bound: b, Body: body(ks[n], g, o)})
+		}
+	}
+	for _, g := range []geo{{64, 1}, {128, 1}} {
+		o := cuworld.TimingOpts{Resident: 1, Delays: []int{9, 60}, CoalescingPenalty: 3}
+		scs = append(scs, harness.Scenario{Name: fmt.Sprintf("k13_gather_sparse_then_dense_line/wg%dx%d/coalescing-penalty3/resident1", g.WGSize, g.NumWG), Bound: 2, Body: body(ks["k13_gather_sparse_then_dense_line"], g, o)})
 	}
 	// a dispatcher that is slow to take completions: many small work-groups finish while the CU's 4-entry port
 	// towards it is full
